@@ -124,6 +124,9 @@ def run(chk, w):
                 lim_ok = (rsrc and rsrc[0] == "global" and rsrc[1] in lim) or rules.const_of(cf, rhs) == 48
                 if lim_ok and (r_key == amt or r_raw == amt_raw):
                     ok = True
+            if not ok and cf.internal:
+                # the admission was moved into a helper: the budget test must then guard every call of that helper
+                ok = rules.guarded_here_or_at_callers(P, cf, ci, lambda fn_, gd_, tr_: _budget_guard(P, fn_, gd_, tr_, lim))
             if ok:
                 chk.ok("C03-ADM", 1, {"admission": ci.loc(), "guard": "counter + r <= limit, r = amount added"})
             else:
@@ -160,6 +163,9 @@ def run(chk, w):
                     if la is not None and la.op == "load" and rules.field_path_of_ptr(P, f, la["ptr"]) == ns.CMR:
                         if (c["pred"] in ("sle", "ule") and taken) or (c["pred"] in ("sgt", "ugt") and not taken):
                             budget_edge = True
+        if not budget_edge:
+            lim_ = [g for g in P.globals if g.split(".u")[0] == "response_limit"]
+            budget_edge = rules.guarded_here_or_at_callers(P, f, i, lambda fn_, gd_, tr_: _budget_guard(P, fn_, gd_, tr_, lim_))
         sends = any(c2.callee in R.wire and (f.dominates(c2, i) or f.dominates(i, c2)) for c2 in f.calls())
         if budget_edge and sends:
             chk.ok("C03-POP", 1, {"pop": i.loc()})
@@ -181,6 +187,17 @@ def run(chk, w):
             def leaves(x):
                 return x.op == "ret" or (x.op == "call" and x.callee in locks.REL and x.args[0].get("name") == "bidib_node_state_table_mutex")
             path = rules.exists_path(f, s, leaves, is_retry)
+            if path and path[-1].op == "ret" and f.internal and P.callers().get(f.name):
+                # the release sits in a helper that returns to its caller: every caller must retry before it unlocks / returns
+                from .. import pending
+                pd = pending.Pending(P, lambda fn_, x, s=s: x.id == s.id and fn_ is f, lambda fn_, x: x.op == "call" and x.callee in R.retry)
+                bad_ = None
+                for cf_ in {cf.name: cf for cf, ci in P.callers().get(f.name, [])}.values():
+                    lk = pd.leaks_at(cf_, leaves=lambda x: x.op == "call" and x.callee in locks.REL and x.args[0].get("name") == "bidib_node_state_table_mutex")
+                    if lk is None or lk:
+                        bad_ = cf_
+                if bad_ is None:
+                    path = None
             if path:
                 chk.violation("C03-RETRY", name, "release@%s" % _branch_tag(f, s), s.loc(),
                               "budget released at line %d but a path reaches the unlock/return without retrying the deferred messages (%s): a held message can be stranded" % (s.line, rules.path_text(path)))
@@ -210,6 +227,23 @@ def _branch_tag(f, s):
         if c is not None and c.op == "fcmp":
             return "expiry"
     return "other"
+
+
+def _budget_guard(P, fn, gd, truth, lim):
+    """the condition  counter + r <= limit  (on this edge)"""
+    c = fn.resolve(gd["cond"])
+    if c is None or c.op != "icmp":
+        return False
+    if not ((c["pred"] in ("sle", "ule") and truth) or (c["pred"] in ("sgt", "ugt") and not truth)):
+        return False
+    l = fn.resolve(rules.strip_casts(fn, c["a"]))
+    if l is None or l.op != "add":
+        return False
+    la = fn.resolve(rules.strip_casts(fn, l["a"]))
+    if la is None or la.op != "load" or rules.field_path_of_ptr(P, fn, la["ptr"]) != ns.CMR:
+        return False
+    rsrc = rules.load_source(fn, c["b"])
+    return bool(rsrc and rsrc[0] == "global" and rsrc[1] in lim) or rules.const_of(fn, c["b"]) == 48
 
 
 def fifo_rules(chk, w, R, rid, fields=(ns.MSGQ, ns.RESPQ)):
